@@ -20,7 +20,8 @@ Inductive raw :=
 | RCmd (n : string)                                      (* a Command object whose result name is n *)
 | RType (t : string)                                     (* a Python type object: float, int, float64, uint *)
 | RData                                                  (* a numpy array *)
-| RNone.
+| RNone
+| RTuple0.                                               (* the empty tuple (): a sequence that equals nothing but itself, not [] *)
 
 Inductive perr :=
 | EParameterNotValid (kind : string) | EPathDoesNotExist | EInvalidRelativePath
@@ -50,7 +51,7 @@ Fixpoint lower (s : string) : string := match s with EmptyString => EmptyString 
 
 Definition pytype (v : raw) : string :=
   match v with RInt _ => "int" | RFloat _ _ => "float" | RBool _ => "bool" | RStr _ _ _ => "str" | RList _ => "list"
-  | RDict _ => "dict" | RCmd _ => "Command" | RType _ => "type" | RData => "ndarray" | RNone => "NoneType" end.
+  | RDict _ => "dict" | RCmd _ => "Command" | RType _ => "type" | RData => "ndarray" | RNone => "NoneType" | RTuple0 => "tuple" end.
 Definition is_number (v : raw) : bool := match v with RInt _ | RFloat _ _ | RBool _ => true | _ => false end.
 
 (* six.text_type(value) for the scalar kinds *)
@@ -173,6 +174,7 @@ Fixpoint clean (p : pkind) (v : raw) {struct p} : cres :=
   | PDataType keys => clean_datatype keys v
   | PList item => match v with
                   | RList l => match clean_list (clean item) l with inl vs => COk (RList vs) | inr e => CErr e end
+                  | RTuple0 => COk (RList [])
                   | _ => CErr (EParameterNotValid "List")
                   end
   | PResult out fz =>
